@@ -212,7 +212,11 @@ class Emitter:
         if not declared_copy:
             self.w('  %s(const %s &o) : %svid_(vtrace::next_id()) { (void)o; ++vtrace::live(); }' % (
                 c.name, c.name,
-                (cpp_type(c.parent, this) + '(o), ') if c.parent is not None else ''))
+                # explicitly the base's copy constructor (a templated constructor of the base
+                # would otherwise be the better match for a derived argument)
+                ('%s(static_cast<const %s &>(o)), ' % (cpp_type(c.parent, this),
+                                                     cpp_type(c.parent, this)))
+                if c.parent is not None else ''))
         self.w('  %s &operator=(const %s &) { return *this; }' % (c.name, c.name))
         self.w('  %s~%s() { --vtrace::live(); }' % ('virtual ' if c.virtual else '', c.name))
         ent = qual
